@@ -1,10 +1,23 @@
 (** C02: printer used by the correspondence check only: frame depth of every operation, then the final state. *)
 From Coq Require Import List Arith ZArith Bool String.
 From TwLib Require Import Show DeferredK DeferredKShow.
-From C02 Require Import Model.
+From C02 Require Import Model InlineModel.
 Import ListNotations.
 Local Open Scope string_scope.
 
 Definition run_show (p : program) : string :=
   String.concat " " (map show_nat (program_depths true p)) ++ " | "
   ++ String.concat " " (map show_dfr (heap_of (fst (run_program true p)))).
+
+(** inline programs: frame depth of the start and of every environment operation, then called:result:paused of
+    every Deferred (the awaited ones, then the result Deferred) *)
+Definition show_state3 (D : dfr) : string :=
+  show_bool (called D) ++ ":" ++ match res D with None => "-" | Some v => show_value v end ++ ":" ++ show_Z (paused D).
+
+Definition irun_show (p : iprogram) : string :=
+  let r := irun_program p in
+  String.concat " " (map show_nat (snd r)) ++ " | "
+  ++ String.concat " " (map show_state3 (heap_of (ks (fst r)))).
+
+Definition show_case (c : program + iprogram) : string :=
+  match c with inl p => run_show p | inr p => irun_show p end.
